@@ -4,6 +4,9 @@ import ClipVerif.Props.C14
 import ClipVerif.Model.IntersectList
 import ClipVerif.Proofs.IntersectList
 import ClipVerif.Proofs.IntersectProcess
+import ClipVerif.Model.Ring
+import ClipVerif.Proofs.Ring
+import ClipVerif.Proofs.RingOwner
 /-
 C03 — every entry point is total.  Proved for the modelled list-level code: the generated functions
 that index or panic are in the `Except Fault` monad, and the theorems below show when they return
@@ -75,5 +78,37 @@ theorem doIntersections_total (xs : List Int) (ns : List Model.Ix.Node)
     ∃ done ael', Model.Ix.process ns (List.range xs.length) = some (done, ael') ∧ done.Perm ns ∧
       ael'.Perm (List.range xs.length) ∧ ael'.Pairwise (fun a b => xs[a]! ≤ xs[b]!) := by
   exact Proofs.IxProc.process_total xs ns (h.trans (Proofs.Ix.build_nodes xs))
+
+/-- ring assembly never dereferences a nil record or an empty ring: in every state reached by operations
+the sweep can issue, every such operation succeeds (model `Model.Ring`, tied by `models-corr ring`; `none`
+is the real code panicking in `addOutPt`, `isFront` or `joinOutrecPaths`) -/
+theorem ring_assembly_total (usingTree : Bool) (n : Nat) (s : Model.Ring.St)
+    (h : Proofs.Ring.Reachable usingTree n s) (op : Model.Ring.Op) (hv : Proofs.Ring.validB s op = true) :
+    ∃ s', Model.Ring.step usingTree s op = some s' := by
+  exact Proofs.Ring.reachable_total usingTree n s h op hv
+
+/-! ### Owner chains end.  `setOwner`'s two loops and the owner walks of the PolyTree builder follow
+`owner` pointers with no bound: a cycle among them is a hang. -/
+
+/-- `setOwner(outrec, newOwner)` keeps every owner chain finite, whatever the table looks like, as long as
+a record is not made its own owner (the model's iteration bounds are shown never to bind on such tables) -/
+theorem setOwner_keeps_chains_finite (s : Model.Ring.St) (a b : Nat) (h : Proofs.RingOwner.Acyclic s)
+    (hne : a ≠ b) : Proofs.RingOwner.Acyclic (Model.Ring.setOwner s a b) := by
+  exact Proofs.RingOwner.setOwner_acyclic s a b h hne
+
+/-- in every state reached by operations the sweep can issue, with `addLocalMinPoly` / `addLocalMaxPoly`
+called with the left edge first as the sweep does, every owner chain ends — with and without PolyTree
+bookkeeping -/
+theorem owner_chains_end (usingTree : Bool) (n : Nat) (s : Model.Ring.St)
+    (h : Proofs.RingOwner.ReachableO usingTree n s) : ∀ r, Proofs.RingOwner.Ends s r := by
+  exact Proofs.RingOwner.reachableO_acyclic usingTree n s h
+
+/-- the ordering condition is needed: called with the right edge first, `addLocalMinPoly` finds its own
+second edge as the previous hot edge and makes the new record its own owner (the next `setOwner` that
+walks over it never returns; reproduced on the real code while the probe was built) -/
+theorem owner_cycle_without_edge_order :
+    ((Model.Ring.step true { edgeRec := List.replicate 3 none } (.min 2 0 ⟨0, 0⟩ true)).map
+      fun s => (s.getRec 0).owner) = some (some 0) := by
+  exact Proofs.RingOwner.unordered_min_self_owner
 
 end C03
